@@ -184,7 +184,10 @@ def decide(pid, tier, seed, args):
         if grp in seen:
             continue
         seen.add(grp)
-        nb = vc.meta.get("nbase", len(vc.hyps))
+        nb = vc.meta.get("entry_n")
+        if nb is None:
+            seen.discard(grp)
+            continue
         c = VC(grp + "?vacuity", vc.hyps[:nb], vc.schemas, z3.BoolVal(False), vc.extra_terms,
                {"z3_t1": 3, "cvc5_t": 3, "z3_t2": 3, "goal_terms": vc.goal})
         probes.append(c)
